@@ -244,3 +244,76 @@ Proof.
   apply canonical_exists_pos; [vm_compute; reflexivity | | vm_compute; reflexivity | cbn; lia].
   repeat (constructor; [lia|]). constructor.
 Qed.
+
+(* ---------- the model is the code: the fmt impls regenerated from /repo's source on every run ---------- *)
+
+(* Generated/FmtGen.v is produced by tools/rs2v_fmt.py from the CURRENT src/buint/fmt.rs and src/bint/fmt.rs on every
+   ./check C12 (the file-local macros fmt_method! / exp_fmt! / fmt_trait! expanded at their invocations); each generated
+   function returns the triple (is_nonnegative, prefix, body) that the impl hands to std's Formatter::pad_integral, written
+   over Model/Imp.v + Model/ImpPrint.v + Model/ImpFmt.v (tools/FMT_TRANSLATOR.md).  For ALL digit widths, digit counts,
+   operands and budgets - and, for the signed Display / Debug / LowerExp / UpperExp (which format the magnitude through a
+   flagless Formatter: `format!("{}", self.unsigned_abs())`), every std padder `pad` - it is the hand-written model the
+   theorems above are about:  Some (Ret t) <-> Done t,  Some Panic <-> Panicked,  None (the budget of the model's
+   to_str_radix, excluded by C11 for well-formed operands) <-> NoFuel.  An edit of the formatting code that changes which
+   triple is handed over breaks this theorem; it no longer has to be hit by a sampled value. *)
+From Bnum.Model Require Imp ImpFmt.
+From Bnum.Generated Require FmtGen.
+From Bnum.Proofs Require FmtGenTie.
+
+Theorem C12_fmt_rs_matches_model : forall (w N : Z) (fuel : nat) (pad : padder) (a : list Z),
+  FmtGen.FmtGen.U_fmt_Binary w N fuel a = ImpFmt.of_oo (U_fmt_Binary w a) /\
+  FmtGen.FmtGen.U_fmt_LowerHex w N fuel a = ImpFmt.of_oo (U_fmt_LowerHex w a) /\
+  FmtGen.FmtGen.U_fmt_UpperHex w N fuel a = ImpFmt.of_oo (U_fmt_UpperHex w a) /\
+  FmtGen.FmtGen.U_fmt_Octal w N fuel a = ImpFmt.of_oo (U_fmt_Octal w a) /\
+  FmtGen.FmtGen.U_fmt_Display w N fuel a = ImpFmt.of_oo (U_fmt_Display w a) /\
+  FmtGen.FmtGen.U_fmt_Debug w N fuel a = ImpFmt.of_oo (U_fmt_Debug w a) /\
+  FmtGen.FmtGen.U_fmt_LowerExp w N fuel a = ImpFmt.of_oo (U_fmt_LowerExp w a) /\
+  FmtGen.FmtGen.U_fmt_UpperExp w N fuel a = ImpFmt.of_oo (U_fmt_UpperExp w a) /\
+  FmtGen.FmtGen.I_fmt_Binary w N fuel a = ImpFmt.of_oo (I_fmt_Binary w a) /\
+  FmtGen.FmtGen.I_fmt_LowerHex w N fuel a = ImpFmt.of_oo (I_fmt_LowerHex w a) /\
+  FmtGen.FmtGen.I_fmt_UpperHex w N fuel a = ImpFmt.of_oo (I_fmt_UpperHex w a) /\
+  FmtGen.FmtGen.I_fmt_Octal w N fuel a = ImpFmt.of_oo (I_fmt_Octal w a) /\
+  FmtGen.FmtGen.I_fmt_Display w N fuel pad a = ImpFmt.of_oo (I_fmt_Display pad w a) /\
+  FmtGen.FmtGen.I_fmt_Debug w N fuel pad a = ImpFmt.of_oo (I_fmt_Debug pad w a) /\
+  FmtGen.FmtGen.I_fmt_LowerExp w N fuel pad a = ImpFmt.of_oo (I_fmt_LowerExp pad w a) /\
+  FmtGen.FmtGen.I_fmt_UpperExp w N fuel pad a = ImpFmt.of_oo (I_fmt_UpperExp pad w a).
+Proof. exact FmtGenTie.fmt_C12_match_model. Qed.
+Print Assumptions C12_fmt_rs_matches_model.
+
+(* ... and therefore the code itself (as regenerated from the source) meets the specification: composing the tie with the
+   theorems above, every generated impl returns `Done` of the canonical numeral of the value (unsigned), of the two's complement
+   pattern (signed radix forms), of the sign and the canonical numeral of the magnitude (signed decimal forms; `pad` any std padder
+   that is the identity without flags, C12_pad_integral_ref_noflags), for every well-formed operand and every budget. *)
+From Bnum.Proofs Require FmtGenTieSpec.
+
+Theorem C12_fmt_rs_meets_spec : forall (w : Z) (n : nat) (N : Z) (fuel : nat) (a : list Z), wf w n a ->
+  (0 < w -> forall ds, canonical_le 2 (uval w a) ds ->
+     FmtGen.FmtGen.U_fmt_Binary w N fuel a = Imp.Done (true, str_0b, map ascii_lower (rev ds))) /\
+  (0 < w -> w mod 4 = 0 -> forall ds, canonical_le 16 (uval w a) ds ->
+     FmtGen.FmtGen.U_fmt_LowerHex w N fuel a = Imp.Done (true, str_0x, map ascii_lower (rev ds)) /\
+     FmtGen.FmtGen.U_fmt_UpperHex w N fuel a = Imp.Done (true, str_0x, map ascii_upper (rev ds))) /\
+  (8 <= w -> forall ds, canonical_le 8 (uval w a) ds ->
+     FmtGen.FmtGen.U_fmt_Octal w N fuel a = Imp.Done (true, str_0o, map ascii_lower (rev ds))) /\
+  (8 <= w -> forall ds, canonical_le 10 (uval w a) ds ->
+     FmtGen.FmtGen.U_fmt_Display w N fuel a = Imp.Done (true, [], map ascii_lower (rev ds)) /\
+     FmtGen.FmtGen.U_fmt_Debug w N fuel a = Imp.Done (true, [], map ascii_lower (rev ds))) /\
+  (8 <= w ->
+     (exists body, FmtGen.FmtGen.U_fmt_LowerExp w N fuel a = Imp.Done (true, [], body) /\ exp_body_spec 101 (uval w a) body) /\
+     (exists body, FmtGen.FmtGen.U_fmt_UpperExp w N fuel a = Imp.Done (true, [], body) /\ exp_body_spec 69 (uval w a) body)) /\
+  (0 < w -> forall ds, canonical_le 2 (sval w a mod Mod w n) ds ->
+     FmtGen.FmtGen.I_fmt_Binary w N fuel a = Imp.Done (true, str_0b, map ascii_lower (rev ds))) /\
+  (0 < w -> w mod 4 = 0 -> forall ds, canonical_le 16 (sval w a mod Mod w n) ds ->
+     FmtGen.FmtGen.I_fmt_LowerHex w N fuel a = Imp.Done (true, str_0x, map ascii_lower (rev ds)) /\
+     FmtGen.FmtGen.I_fmt_UpperHex w N fuel a = Imp.Done (true, str_0x, map ascii_upper (rev ds))) /\
+  (8 <= w -> forall ds, canonical_le 8 (sval w a mod Mod w n) ds ->
+     FmtGen.FmtGen.I_fmt_Octal w N fuel a = Imp.Done (true, str_0o, map ascii_lower (rev ds))) /\
+  (forall pad, pad_noflags_id pad -> 8 <= w -> (0 < n)%nat ->
+     (forall ds, canonical_le 10 (Z.abs (sval w a)) ds ->
+        FmtGen.FmtGen.I_fmt_Display w N fuel pad a = Imp.Done (0 <=? sval w a, [], map ascii_lower (rev ds)) /\
+        FmtGen.FmtGen.I_fmt_Debug w N fuel pad a = Imp.Done (0 <=? sval w a, [], map ascii_lower (rev ds))) /\
+     (exists body, FmtGen.FmtGen.I_fmt_LowerExp w N fuel pad a = Imp.Done (0 <=? sval w a, [], body) /\
+                   exp_body_spec 101 (Z.abs (sval w a)) body) /\
+     (exists body, FmtGen.FmtGen.I_fmt_UpperExp w N fuel pad a = Imp.Done (0 <=? sval w a, [], body) /\
+                   exp_body_spec 69 (Z.abs (sval w a)) body)).
+Proof. exact FmtGenTieSpec.fmt_C12_generated_meets_spec. Qed.
+Print Assumptions C12_fmt_rs_meets_spec.
